@@ -33,6 +33,11 @@ def std_case(rnd, seed, *, kinds=("gauss", "bimodal", "expedge", "corr"), scenar
         case["save_every"] = rnd.choice([1, 2, 3])
         case["resume_which"] = rnd.choice(["final", "final", "latest"])
         case["resume_n_total"] = rnd.choice([case["n_total"], max(16, case["n_total"] // 2), max(16, case["n_total"] // 4), case["n_total"] * 2])
+    elif case["scenario"] == "load_only":
+        case["save_every"] = rnd.choice([1, 2, 3])
+        case["load_which"] = rnd.choice(["final", "latest", "first"])
+    elif case["scenario"] == "extra_samples":
+        case["n_extra"] = rnd.choice([1, 2, 3])
     elif case["scenario"] == "like_raise":
         case["like_fault"] = dict(kind="like.raise", batch=rnd.randrange(2, 30))
     elif case["scenario"] == "pool_death":
